@@ -80,8 +80,13 @@ def rows_same(a, b):
 	return len(a) == len(b) and all(M.same_list(x, y) for x, y in zip(a, b))
 
 
-def refusal_allowed(lkeycols, rkeycols):
-	"""may the library refuse this join at all? (model kinds differ / float key / undetermined kind)"""
+def refusal_allowed(lkeycols, rkeycols, lschemas=None, rschemas=None):
+	"""may the library refuse this join at all? (kinds differ / float key / undetermined kind).  The kinds are the model kinds of the
+	current values and, when given, the kinds the key columns DECLARE (a column that was int and now happens to hold only bools is
+	still an int column: comparing it with a bool column may be refused)"""
+	for ls, rs in zip(lschemas or [], rschemas or []):
+		if ls is not None and rs is not None and (ls.kind is not rs.kind or ls.kind is float or rs.kind is float):
+			return True
 	for lc, rc in zip(lkeycols, rkeycols):
 		ml, mr = M.model_infer(lc), M.model_infer(rc)
 		if ml is None or mr is None:
@@ -138,7 +143,9 @@ def check_join(chk, prop, stratum, how, L, R, lnames, rnames, key_mode="name", e
 	if before != after:
 		chk.fail("a join does not modify its inputs", f"join/input-modified/{how}", f"{how} join changed an input table: {short(before, 200)} -> {short(after, 200)}", prop=prop)
 	if not o.ok:
-		if refusal_allowed(lkeycols, rkeycols):
+		lsch = [L.cols()[ln.index(k)].schema() for k in lnames]
+		rsch = [R.cols()[rn.index(k)].schema() for k in rnames]
+		if refusal_allowed(lkeycols, rkeycols, lsch, rsch):
 			chk.skip("join-refusal-allowed")
 			return o
 		chk.fail("the join is computed for every admissible input", f"join/raises/{tag}/{type(o.exc).__name__}",
